@@ -178,6 +178,22 @@ func checkC04(c *Ctx) {
 		}
 		items[i] = c04Record(c, i, ms[i], rand.New(rand.NewSource(seeds[i])), perMini)
 	})
+	// the same fragments with multi-byte text in every identifier and string literal: positions are byte
+	// offsets, and a comment behind a token go/printer emits without a position of its own (the dot of a
+	// selector, a closing bracket, the semicolons of a for clause) is placed by what precedes it
+	mbItems := make([]traceItem, nMini)
+	parallel(nMini, func(i int) {
+		if i%3 != 0 && c.Quick() {
+			return
+		}
+		ms, err := miniFiles(src)
+		if err != nil {
+			return
+		}
+		multiByteNames(ms[i])
+		mbItems[i] = c04Record(c, c04MultiByte+i, ms[i], rand.New(rand.NewSource(seeds[i]+1)), perMini/2)
+	})
+	items = append(items, mbItems...)
 	// one FileRestorer for several files, every file printed only after all have been restored: each
 	// file still renders exactly its own decorations (what a restore returns may not change afterwards)
 	c04Reuse(c, src, r0)
@@ -272,6 +288,9 @@ func c04Record(c *Ctx, idx int, f *dst.File, r *rand.Rand, maxCases int) traceIt
 		return true
 	})
 	key := fmt.Sprintf("template-fragment-%d", idx)
+	if idx >= c04MultiByte {
+		key = fmt.Sprintf("template-fragment-%d(multi-byte names)", idx-c04MultiByte)
+	}
 	cases := 0
 	run := func(sel []int, kind string, label string) {
 		// place markers, print, restore
@@ -415,11 +434,18 @@ func init() {
 			return "harness: " + err.Error()
 		}
 		ms, err := miniFiles(src)
-		if err != nil || r.Mini < 0 || r.Mini >= len(ms) {
+		mi := r.Mini
+		if mi >= c04MultiByte {
+			mi -= c04MultiByte
+		}
+		if err != nil || mi < 0 || mi >= len(ms) {
 			return "harness: bad fragment"
 		}
+		if r.Mini >= c04MultiByte {
+			multiByteNames(ms[mi])
+		}
 		c := newCtx("C04", "thorough", 1, "model_checking")
-		it := c04Record(c, r.Mini, ms[r.Mini], rand.New(rand.NewSource(1)), 1<<30)
+		it := c04Record(c, r.Mini, ms[mi], rand.New(rand.NewSource(1)), 1<<30)
 		msg := ""
 		validateTraces(c, "RenderTrace", renderTraceCfg, []traceItem{it}, 1<<30, false, func(it traceItem, res *TLCResult) {
 			msg = rejectText(res) + " OBSERVED " + offendingEvent(it, res) + c04Expected(res)
@@ -700,4 +726,26 @@ func c04Handover(c *Ctx) {
 			}
 		}
 	}
+}
+
+const c04MultiByte = 100000
+
+// multiByteNames gives every identifier and every interpreted string literal of the tree multi-byte text
+// (syntax only: the fragments are printed, not type-checked).
+func multiByteNames(f *dst.File) {
+	dst.Inspect(f, func(n dst.Node) bool {
+		switch x := n.(type) {
+		case *dst.ImportSpec:
+			return false
+		case *dst.Ident:
+			if x.Name != "_" && x.Path == "" {
+				x.Name += "ä日"
+			}
+		case *dst.BasicLit:
+			if x.Kind == token.STRING && strings.HasPrefix(x.Value, "\"") && len(x.Value) >= 2 {
+				x.Value = x.Value[:len(x.Value)-1] + "äöü日本" + "\""
+			}
+		}
+		return true
+	})
 }
